@@ -132,7 +132,9 @@ fn changed_under_roots() -> Vec<String> {
     }
     out
 }
-const ALLOWED: [&str; 9] = ["/etc/azure/", "/etc/azure/proxy-agent.json", "/usr/sbin/azure-proxy-agent", "/usr/lib/azure-proxy-agent/", "/usr/lib/azure-proxy-agent/ebpf_cgroup.o", "/usr/lib/systemd/", "/usr/lib/systemd/system/", "/usr/lib/systemd/system/azure-proxy-agent.service", "/etc/azure"];
+// (the two entries without a trailing slash are the whiteouts the overlay shows when the machine's own root already
+// has such a directory and the run's wipe removed it)
+const ALLOWED: [&str; 10] = ["/etc/azure/", "/etc/azure/proxy-agent.json", "/usr/sbin/azure-proxy-agent", "/usr/lib/azure-proxy-agent/", "/usr/lib/azure-proxy-agent/ebpf_cgroup.o", "/usr/lib/systemd/", "/usr/lib/systemd/system/", "/usr/lib/systemd/system/azure-proxy-agent.service", "/etc/azure", "/usr/lib/azure-proxy-agent"];
 
 fn sha(data: &Option<Vec<u8>>) -> String {
     match data {
